@@ -353,7 +353,7 @@ def rule_MP4(rep, prog):
 def rule_OD5(rep, prog):
     rid = rep.rule("C18-OD5", "a dispatch_sync / async_and_wait item that ends up executed by the thread a bottom queue is bound to runs with the queue it was "
                    "SUBMITTED to as current queue: every sync context whose invoke function is _dispatch_async_and_wait_invoke records the function's top queue "
-                   "(first parameter) in dc_other, and the invoke pushes exactly that value as the thread frame's queue", floor=3)
+                   "(first parameter) in dc_other, and the invoke pushes exactly that value as the thread frame's queue", floor=4)
     n = 0
     for fn in prog.all_functions():
         fstores = [st for st in fn.all_insts() if st.op == "store" and st.ops[0][0] == "f" and st.ops[0][1] == "_dispatch_async_and_wait_invoke"
@@ -382,6 +382,82 @@ def rule_OD5(rep, prog):
                 "_dispatch_async_and_wait_invoke must install the context's dc_other (the submitted-to queue) as the frame's queue", sample={"pushes": len(push)})
     if n < 3:
         rep.unknown(rid, "fewer than 3 sync-context constructors found (%d)" % n)
+    # the thread that ends up running a parked dispatch_sync item rebases its frames onto the frame linkage saved in the waiter's context: that linkage is
+    # saved on EVERY path before the context is pushed - the queue being waited on need not be the thread-bound one, the bottom of its hierarchy may be
+    fn = prog.fn("__DISPATCH_WAIT_FOR_QUEUE__")
+    rep.saw(fn)
+    push = icalls_slot(prog, fn, "dq_push")
+    save = calls_named(fn, "_dispatch_thread_frame_save_state") + [st for st in fn.all_insts() if st.op == "store" and "dsc_dtf" in prog.fields(st)]
+    if not push:
+        rep.unknown(rid, "anchor vanished: __DISPATCH_WAIT_FOR_QUEUE__ does not push the waiter")
+    else:
+        from .sync_common import entry_point
+        bare = [r for r in paths.walk(fn, entry_point(fn), lambda i: i in push, avoid=lambda i: i in save) if r[0] == "hit"]
+        rep.require(rid, not bare and bool(save), push[0].loc, fn.name, "waiter-pushed-without-frame-linkage",
+                    "__DISPATCH_WAIT_FOR_QUEUE__ can push the sync waiter without having saved the caller's thread-frame linkage in dsc_dtf (path %s): when the item is "
+                    "later run by the thread a bottom queue is bound to (main / run-loop queue under an ordinary serial queue), that thread rebases onto a zeroed "
+                    "linkage and the submitting context disappears - dispatch_assert_queue on the submitting queue traps, dispatch_assert_queue_not passes"
+                    % (bare[0][3] if bare else None), sample={"saves": len(save)})
+
+
+def rule_TB9(rep, prog, srcdir):
+    rid = rep.rule("C18-TB9", "which queues carry queue-specific data is a fixed property of the queue's TYPE: _dispatch_queue_admits_specific is a function of do_type "
+                   "alone and admits serial / concurrent queues, the main queue and workloops, and no manager or run-loop queue - it gives the same answer before "
+                   "and after dispatch_main() (which un-binds the main queue from its thread)", floor=8)
+    names = {"DISPATCH_QUEUE_SERIAL_TYPE": True, "DISPATCH_QUEUE_CONCURRENT_TYPE": True, "DISPATCH_QUEUE_MAIN_TYPE": True, "DISPATCH_WORKLOOP_TYPE": True,
+             "DISPATCH_QUEUE_MGR_TYPE": False, "DISPATCH_QUEUE_RUNLOOP_TYPE": False, "DISPATCH_SOURCE_KEVENT_TYPE": False,
+             # root queues: determined by the type as well; which way is not part of the property (the library accepts them)
+             "DISPATCH_QUEUE_GLOBAL_ROOT_TYPE": None, "DISPATCH_QUEUE_PTHREAD_ROOT_TYPE": None}
+    k = consts.get(list(names), srcdir=srcdir, unit="queue")
+    fn = prog.fn("_dispatch_queue_admits_specific")
+    rep.saw(fn)
+    tl = [l for l in fn.all_insts() if l.op == "load" and "do_type" in prog.fields(l)]
+    if not tl:
+        rep.unknown(rid, "anchor vanished: _dispatch_queue_admits_specific does not read do_type")
+        return
+    for nm, want in sorted(names.items()):
+        env = {l.id: k[nm] for l in tl}
+        r, env = concrete_walk(fn, env, lambda i: i.op == "ret")
+        v = ceval(fn, r.ops[0], {k_: v_ for k_, v_ in env.items() if not isinstance(v_, tuple)}) if r is not None and r.ops else None
+        rep.require(rid, v is not None and (want is None or bool(v) == want), fn.file + ":" + str(fn.d.get("line")), fn.name, "admits-specific:%s" % nm,
+                    "_dispatch_queue_admits_specific for a queue of type %s (%#x) %s, expected %s: %s"
+                    % (nm, k[nm], "is not determined by the type (it consults mutable state such as DQF_THREAD_BOUND, which dispatch_main() clears: values set on the "
+                       "main queue stop being reported by dispatch_get_specific afterwards)" if v is None else "evaluates to %s" % bool(v), want,
+                       "queue-specific data is supported on serial, concurrent, main and workloop queues only"), sample={"type": nm, "admits": want})
+
+
+def rule_TB10(rep, prog, srcdir):
+    rid = rep.rule("C18-TB10", "activation keeps what the attribute requested: the priority normalisation in _dispatch_lane_activate may drop the FALLBACK QoS and its "
+                   "flag, but the requested QoS class and relative priority (DISPATCH_PRIORITY_REQUESTED_MASK) of an initially-inactive queue come out unchanged", floor=6)
+    k = consts.get(["DISPATCH_PRIORITY_REQUESTED_MASK", "DISPATCH_PRIORITY_QOS_MASK", "DISPATCH_PRIORITY_RELPRI_MASK", "DISPATCH_PRIORITY_FALLBACK_QOS_MASK",
+                    "DISPATCH_PRIORITY_FLAG_FALLBACK", "DISPATCH_PRIORITY_FLAG_FLOOR", "DISPATCH_PRIORITY_FLAG_OVERCOMMIT"], srcdir=srcdir, unit="queue")
+    RQ = k["DISPATCH_PRIORITY_REQUESTED_MASK"]
+    fn = prog.fn("_dispatch_lane_activate")
+    rep.saw(fn)
+    lds = [l for l in fn.all_insts() if l.op == "load" and "dq_priority" in prog.fields(l)]
+    sts = [st for st in fn.all_insts() if st.op == "store" and "dq_priority" in prog.fields(st)]
+    if not lds or not sts:
+        rep.unknown(rid, "anchor vanished in _dispatch_lane_activate (dq_priority loads=%d stores=%d)" % (len(lds), len(sts)))
+        return
+    qsh = (k["DISPATCH_PRIORITY_QOS_MASK"] & -k["DISPATCH_PRIORITY_QOS_MASK"]).bit_length() - 1
+    fsh = (k["DISPATCH_PRIORITY_FALLBACK_QOS_MASK"] & -k["DISPATCH_PRIORITY_FALLBACK_QOS_MASK"]).bit_length() - 1
+    for qos in (0, 2, 5):
+        for relpri in (0xff, 0xf1, 0xfc):
+            for fb in (0, 4):
+                P = (qos << qsh) | (relpri if qos else 0) | (fb << fsh) | (k["DISPATCH_PRIORITY_FLAG_FALLBACK"] if fb else 0) | k["DISPATCH_PRIORITY_FLAG_OVERCOMMIT"]
+                env = {l.id: P for l in lds}
+                final = [P]
+                def rec(i, env=env, final=final):
+                    if i in sts:
+                        final.append(ceval(fn, i.ops[0], {k_: v_ for k_, v_ in env.items() if not isinstance(v_, tuple)}))
+                    return i.op == "call" and i.callee == "_dispatch_queue_priority_inherit_from_target"
+                concrete_walk(fn, env, rec)
+                v = final[-1]
+                rep.require(rid, v is not None and (v & RQ) == (P & RQ) and (v & k["DISPATCH_PRIORITY_FLAG_OVERCOMMIT"]), sts[0].loc, fn.name,
+                            "activation-changes-requested-priority:%d:%#x:%d" % (qos, relpri, fb),
+                            "_dispatch_lane_activate turns dq_priority %#x into %s: the requested QoS class / relative priority bits (%#x) must survive the normalisation "
+                            "- a queue created inactive with (class, relpri) reports a different relative priority after dispatch_activate than the attribute denotes"
+                            % (P, hex(v) if v is not None else "?", RQ), sample={"priority": hex(P), "after": hex(v) if v is not None else None})
 
 
 def root_of(fn, op):
@@ -507,6 +583,10 @@ def run(rep, tier="quick", srcdir=None, only=None):
         rule_MP4(rep, prog)
     if want("C18-OD5"):
         rule_OD5(rep, prog)
+    if want("C18-TB9"):
+        rule_TB9(rep, prog, srcdir)
+    if want("C18-TB10"):
+        rule_TB10(rep, prog, srcdir)
     if want("C18-MP8"):
         rule_MP8(rep, prog)
     if want("C18-WM6"):
